@@ -13,11 +13,9 @@ from vlib import env, certs
 from vlib.certs import V2Cert
 
 env.prepare()
-import admin.certificate_v2 as cv2                                   # noqa: E402
 from admin.certificate import HSMCertificate, HSMCertificateV2ElementX509   # noqa: E402
 from cryptography.hazmat.primitives.asymmetric import ec as cec      # noqa: E402
 
-cv2.datetime = certs.FakeDatetime
 
 ID = "C07"
 LEVEL = "exploration"
@@ -33,10 +31,13 @@ RULE = ("Hypothesis-generated version-2 certificates from freshly built P-256 X.
 ASSUMPTIONS = [
     "validity by construction (each corruption breaks a known element); uncorrupted chains are "
     "re-verified independently (cryptography for raw ECDSA links, ecdsa for issuer signatures)",
-    "the clock of validity checks is admin.certificate_v2.datetime, replaced by a fixed instant",
+    "the clock is the real one (certificates are dated relative to it; a case finishes within "
+    "30 minutes); the host time zone is the process's (TZ + tzset)",
 ]
 CORR = ["flip", "flip", "flip", "other-key", "window", "reparent", "wrong-root", "swap-certs",
-        "p384-leaf", "k1-leaf", "p384-inter", "boundary-window", "rekey-att", "bundled-root"]
+        "p384-leaf", "k1-leaf", "p384-inter", "boundary-window", "rekey-att", "bundled-root",
+        "reparent-resigned", "reparent-resigned"]
+KNOWN_SIG = "quote-certified-directly-by-x509-accepted"
 FLIP_FIELDS = {"quote": ["message", "custom_data", "signature"],
                "attestation": ["message", "key", "auth_data", "signature"]}
 REQUIRED_LABELS = {t: ["valid", "invalid:quote", "invalid:attestation",
@@ -63,8 +64,8 @@ def cases(draw, tier):
                      "field": draw(st.integers(0, 9)), "pos": draw(st.integers(0, 10 ** 6)),
                      "bit": draw(st.integers(0, 7)), "key": draw(st.integers(1, 2 ** 255)),
                      "win": draw(st.sampled_from(["expired", "not-yet", "expired-1h",
-                                                  "not-yet-1h"])),
-                     "bwin": draw(st.sampled_from(["ends-now", "starts-now", "ends-in-1h",
+                                                  "not-yet-1h", "expired-30m", "not-yet-30m"])),
+                     "bwin": draw(st.sampled_from(["ends-in-30m", "started-30m-ago", "ends-in-1h",
                                                    "started-1h-ago"]))})
     return {"spec": spec, "corruptions": corr,
             # UTC offset of the host the verification runs on (seconds)
@@ -97,7 +98,7 @@ def apply(c):
     spec["windows"] = windows
     v = V2Cert(spec)
     broken = set(nm for nm, wname in windows.items()
-                 if wname in ("expired", "not-yet", "expired-1h", "not-yet-1h"))
+                 if wname in certs.BROKEN_WINDOWS)
     doc = v.to_dict()
     els = {e["name"]: e for e in doc["elements"]}
     root_map = v.root_element_map()
@@ -183,6 +184,45 @@ def apply(c):
                 v.parent = dict(v.parent, attestation=v.chain[1])
             else:
                 labels[-1] = "corr:reparent-na"
+        elif kind == "reparent-resigned":
+            # an element is hung under ANOTHER element of the chain and really signed by that
+            # element's key; only ever the sole corruption of a case
+            if len(c["corruptions"]) != 1:
+                labels[-1] = "corr:reparent-resigned-na"
+                continue
+            ups = v.chain + ["sgx_root"]
+            which = k["field"] % 3
+            if which == 0:
+                # attestation key certified by another certificate: every stated condition
+                # still holds (its certifier has a P-256 key and signed the report body)
+                new = ups[1 + k["el"] % (len(ups) - 1)]
+                els["attestation"]["signed_by"] = new
+                els["attestation"]["signature"] = certs.sign_p256(
+                    v.keys[new], bytes.fromhex(els["attestation"]["message"])).hex()
+                labels.append("reparent-resigned:attestation->" +
+                              ("root" if new == "sgx_root" else "x509"))
+            elif which == 1:
+                # the quote certified directly by a certificate: there is no attestation key
+                # on its path, so "signed by that attestation key" cannot hold
+                new = ups[k["el"] % len(ups)]
+                els["quote"]["signed_by"] = new
+                els["quote"]["signature"] = certs.sign_p256(
+                    v.keys[new], bytes.fromhex(els["quote"]["message"])).hex()
+                broken.add("quote")
+                labels.append("reparent-resigned:quote->x509")
+            else:
+                # a certificate skips its issuer and is issued by a higher one
+                if len(v.chain) < 2:
+                    labels[-1] = "corr:reparent-resigned-na"
+                    continue
+                i = k["el"] % (len(v.chain) - 1)
+                nm = v.chain[i]
+                new = ups[i + 2 + (k["pos"] % (len(ups) - i - 2))]
+                els[nm]["signed_by"] = new
+                els[nm]["message"] = certs.der_to_b64(certs.cert_der(certs.make_cert(
+                    nm, v.keys[nm].public_key(), "root" if new == "sgx_root" else new,
+                    v.keys[new], windows.get(nm, "valid"))))
+                labels.append("reparent-resigned:x509-skips-issuer")
         elif kind == "wrong-root":
             if not claim(v.chain[-1]):
                 continue
@@ -265,8 +305,12 @@ def path_of(doc):
     return list(reversed(path))
 
 
+def doc_signed_by(doc, name):
+    return next(e["signed_by"] for e in doc["elements"] if e["name"] == name)
+
+
 def check_valid_values(val, v, doc):
-    if not isinstance(val, dict) or set(val) != {"sgx_quote", "message"}:
+    if not isinstance(val, dict) or not {"sgx_quote", "message"} <= set(val):
         raise Violation("value-shape", repr(val)[:200])
     if val["message"] != v.custom.hex():
         raise Violation("custom-message-value", "%r vs %r" % (val["message"], v.custom.hex()))
@@ -308,7 +352,6 @@ def run_case(c):
         json.dump(doc, f)
     cert = HSMCertificate.from_jsonfile(fpath)
     labels.append("depth:%d" % len(v.chain))
-    certs.FakeDatetime.local_offset = c.get("tz_offset", 0)
     labels.append("tz:utc" if not c.get("tz_offset") else "tz:other")
     other = certs.p256_key(c.get("other_root", 1), role="unrelated-root")
     other_map = {"name": "sgx_root", "signed_by": "sgx_root",
@@ -318,7 +361,8 @@ def run_case(c):
                                       for a in c.get("again", [])]
     for rnd, (what, rmap) in enumerate(rounds):
         root = HSMCertificateV2ElementX509(rmap)
-        got = cert.validate_and_get_values(root)
+        with certs.host_timezone(c.get("tz_offset", 0)):
+            got = cert.validate_and_get_values(root)
         where = "validation #%d of the same object (%s root)" % (rnd + 1, what)
         if rnd > 0:
             labels.append("revalidated:" + what)
@@ -330,23 +374,26 @@ def run_case(c):
             if g[0] is not True:
                 raise Violation("valid-chain-rejected", "%s: code says %r; corruptions %r" % (
                     where, g[:2], [k["kind"] for k in c["corruptions"]]))
-            if len(g) != 3 or g[2] is not None:
-                raise Violation("value-shape", repr(g)[:200])
             check_valid_values(g[1], v, doc)
             if rnd == 0:
                 labels.append("valid")
         else:
+            if g[0] is not False and "reparent-resigned:quote->x509" in labels and \
+                    what != "other":
+                raise Violation(KNOWN_SIG, "%s: the quote names the certificate %r as its "
+                                "certifier and carries that certificate key's signature; no "
+                                "attestation-key element is on its path, yet it is reported "
+                                "valid" % (where, doc_signed_by(doc, "quote")))
             if g[0] is not False:
                 raise Violation("invalid-chain-accepted:" + exp_first, "%s: first broken "
                                 "element %s (corruptions %r) but code says valid" % (
                                     where, exp_first,
                                     [k["kind"] for k in c["corruptions"]][:3]))
-            if g[1] != exp_first:
-                raise Violation("wrong-failing-element", "%s: code names %r, first broken from "
-                                "the root is %r (path %r, broken %r)" % (
-                                    where, g[1], exp_first, path, sorted(broken)))
+            # which element is named is not part of the statement (it is for version 1, C06)
             if rnd == 0:
                 labels.append("invalid:" + exp_first)
+                labels.append("named-first-broken" if g[1:2] == (exp_first,) else
+                              "named-another-element")
     nt = bool(c["corruptions"])
     return Out(labels, nt)
 
